@@ -26,7 +26,7 @@ pub fn def() -> PropDef {
                chunk, unlimited}, maximal item size in {64 B, 1 KiB, 64 KiB}, content seed) drive an on-the-fly \
                generated stream (never materialised; DIMACS streams come in three shapes: clauses with occasional \
                comments, a header whose declared clause count is reached after 100 clauses followed only by comment \
-               and blank lines, one clause spread over the whole stream with comment lines in between, fixed-width 16-byte clause lines behind a 15-byte comment so that power-of-two reads always end inside a token; BTOR2 streams optionally end with a malformed justice line declaring 6*10^7 conditions, binary AIGER streams optionally with a multi-megabyte run of continuation bytes in place of the last gate or with twice as many gates as the header declares (whose bytes avoid white space); the reader is constructed by from_read or from_buf_reader (capacities 0..4 MiB), its chunk size configured once or twice; the AIGER section readers also run in skip mode, where all but the first gate are left to symbols() to pass over; one configuration in six drives the DeferredReader directly - request_more/advance, request(k)/advance(k), or byte look-ahead to the next LF - instead of a parser) of N bytes with N >= 64 x bound through the parser while a \
+               and blank lines, one clause spread over the whole stream with comment lines in between, fixed-width 16-byte clause lines behind a 15-byte comment so that power-of-two reads always end inside a token, clauses with a run of blank lines of twice the bound after every 4000 items (also for BTOR2); BTOR2 streams optionally end with a malformed justice line declaring 6*10^7 conditions, binary AIGER streams optionally with a multi-megabyte run of continuation bytes in place of the last gate or with twice as many gates as the header declares (whose bytes avoid white space); the reader is constructed by from_read or from_buf_reader (capacities 0..4 MiB), its chunk size configured once or twice; the AIGER section readers also run in skip mode, where all but the first gate are left to symbols() to pass over; one configuration in six drives the DeferredReader directly - request_more/advance, request(k)/advance(k), or byte look-ahead to the next LF - instead of a parser) of N bytes with N >= 64 x bound through the parser while a \
                counting global allocator records the peak live heap. Oracle: peak <= 16 x chunk + 16 x max_item + \
                64 KiB, and the parse ends cleanly. Non-trivial: N >= 64 x bound and items of the maximal size \
                occurred (every 500th item is padded to it). evaluations = configurations run.",
@@ -91,12 +91,31 @@ fn mix(seed: u64, i: u64) -> u64 {
     x
 }
 
+/// Shape 4: (length of a blank run in items of 64 blank lines, period in items).
+fn blank_runs(cfg: &Config) -> (u64, u64) {
+    let run = ((2 * bound(cfg) as u64) / 90).clamp(16, 100_000);
+    (run, 3 * run + 3000)
+}
+
+fn blank_item(cfg: &Config, idx: u64) -> bool {
+    let (run, period) = blank_runs(cfg);
+    idx % period >= period - run
+}
+
 /// Generates item `idx` of the stream (a pure function of the configuration).
 fn item(cfg: &Config, idx: u64, out: &mut Vec<u8>) {
     use std::io::Write;
     out.clear();
     let r = mix(cfg.seed, idx);
     let big = idx % 500 == 7;
+    if cfg.shape == 4 && blank_item(cfg, idx) {
+        // part of a run of blank lines (each of them a tiny item); the run is about twice as long
+        // as the bound
+        for k in 0..64 {
+            out.extend_from_slice(if (idx + k) % 5 == 0 { b"  \n" } else { b"\n" });
+        }
+        return;
+    }
     let target = if big { cfg.max_item } else { 8 + (r % 40) as usize };
     match cfg.parser {
         ParserId::Cnf | ParserId::Wcnf | ParserId::Gcnf if cfg.shape == 1 && idx >= 100 => {
@@ -408,6 +427,13 @@ pub fn check(cfg: &Config, obs: &mut Obs) -> CheckResult {
         (true, 1) => 101, // header + the declared 100 clauses
         (true, 2) => 1,   // the one long clause
         (true, 3) => items - 1, // the first line is a comment
+        (_, 4) => {
+            // items that are part of a blank run return nothing
+            let (run, period) = blank_runs(cfg);
+            let full = items / period;
+            let rest = (items % period).saturating_sub(period - run);
+            items - full * run - rest
+        }
         _ if spec.flag => 2,    // header and the first and gate; the rest is skipped by symbols()
         (_, 2) if cfg.parser == ParserId::Aig => items / 2 + 1, // the declared gates
         _ => items + if cfg.parser.is_aiger() { 1 } else { 0 },
@@ -568,7 +594,7 @@ fn config_strategy(quick: bool) -> impl Strategy<Value = Config> {
         ]),
         proptest::sample::select(vec![64usize, 1 << 10, 64 << 10]),
         any::<u64>(),
-        prop_oneof![2 => Just(0u8), 1 => Just(1u8), 1 => Just(2u8), 1 => Just(3u8)],
+        prop_oneof![4 => Just(0u8), 2 => Just(1u8), 2 => Just(2u8), 2 => Just(3u8), 3 => Just(4u8)],
         any::<bool>(),
         prop_oneof![10 => Just(0u8), 2 => 1u8..=3, 1 => Just(4u8)],
         prop_oneof![4 => Just(None), 1 => proptest::sample::select(vec![1usize << 30, 1 << 20, 3, 100_000]).prop_map(Some)],
@@ -596,6 +622,9 @@ fn config_strategy(quick: bool) -> impl Strategy<Value = Config> {
                     (ParserId::Aig, 1) => 1,
                     (ParserId::Aig, 2) => 2,
 
+                    (ParserId::Btor2, 4) if chunk != Some(40 << 20) => 4,
+                    (p, 4) if p.is_dimacs() && chunk != Some(40 << 20) => 4,
+                    (_, 4) => 0,
                     (ParserId::Cnf, s) => s,
                     (p, 3) if p.is_dimacs() => 0,
                     (p, s) if p.is_dimacs() => s,
